@@ -147,7 +147,7 @@ def run(ctx):
     if mk:
         k2_unreachable(ctx, "R3-missing-keys-gate", where, g, {mk[0]: True}, commit, "with missing keys the write group is not committed")
         k2_unreachable(ctx, "R3-missing-keys-gate", where, g, {mk[0]: False}, susp, "without missing keys the write group is not left suspended")
-        rets = [n for n in g.nodes if n.kind == "stmt" and isinstance(n.ast, ast.Return) and n.id in g.reach(susp)]
+        rets = [n for n in g.nodes if n.kind == "stmt" and isinstance(n.ast, ast.Return) and n.id in g.reach(susp, include_src=True)]
         ctx.check("R3-missing-keys-returned", where, any(mk[0] in norm(r.ast.value) for r in rets), "the missing keys are returned to the caller together with the resume tokens")
     f2 = repo.func(VF, "StreamSink.insert_stream_without_locking")
     w2 = f"{VF}:StreamSink.insert_stream_without_locking"
